@@ -77,6 +77,8 @@ def run(ctx):
                           replay="from edgegraph.structure import *\na, b, c = Vertex(), Vertex(), Vertex()\nsrc = [a, b]\nh1, h2 = Link(vertices=src), Link(vertices=src)\nh1.add_vertex(c)\nprint(c in h2.vertices, h2 in c.links)")
     from rules import hist
     hist.run(ctx, res, 'C01')       # composition: histories through the public API against the reference model (rules/hist.py)
+    from rules import scale
+    scale.run(ctx, res, 'C01')      # the same on graphs whose collections have the sizes the tree names (rules/scale.py)
     hist.run_sequences(ctx, res, "C01", "links", 4 if ctx.thorough else 3)      # every sequence of that many operations on one link; I1 also after calls that raised
     common.vacuity(res, "SEQUENCE", 3000)
     common.vacuity(res, "HISTORY", 600)
